@@ -19,7 +19,9 @@ the documented conventions of the public API — not from the conversion code:
   derives the mandatory `fileType` from it), more than eight cues / loops, a
   label longer than 255 bytes (one-byte length prefix), a non-empty waveform
   without sample count or sample rate, or with a rate that has no integer part
-  in the 64-bit range (NaN, ±inf, |rate| ≥ 2^63).
+  in the 64-bit range (NaN, ±inf, |rate| ≥ 2^63), or for a track whose
+  recommended overview size is 0 (sample count 0, or |rate| < 210 Hz): there the
+  waveform could only be dropped.
 -/
 import EngineModel.TracksV2.Types
 import EngineModel.Pure.Waveform
@@ -102,7 +104,12 @@ def normWaveform (w : List WEntry) (count : Option UInt64) (rate : Option F) : O
   | some n, some r =>
     match integerPart r with
     | none => none
-    | some t => some (overviewOf w (Pure.Waveform.ovSize n.toNat t.natAbs))
+    | some t =>
+      -- a track without samples, or with a rate below the quantisation rate (210 Hz), has no overview
+      -- waveform at all (recommended size 0): a non-empty waveform could only be dropped — not
+      -- representable, so the write must be rejected ("never silently corrupted")
+      if Pure.Waveform.ovSize n.toNat t.natAbs = 0 then none
+      else some (overviewOf w (Pure.Waveform.ovSize n.toNat t.natAbs))
   | _, _ => none
 
 /-- The file name (what follows the last '/') contains a '.': some '.' of the
